@@ -284,6 +284,11 @@ func (x *Exec) KillClient(client int) {
 				th.gated = false
 				close(th.ch)
 			}
+			if th.Harness {
+				// a thread of a stopped process may be blocked for ever on something another (killed) thread of that
+				// process would have delivered: for the controller it is over
+				th.done = true
+			}
 		}
 	}
 }
